@@ -28,6 +28,8 @@ def run(ctx):
     reqtab.check_requirement_tables(ctx)
     from ..rules import memo, shared
     memo.check(ctx, cg, ef, res, shared.api_entries(sm))
+    from . import c11
+    c11.initialiser_keeps_decided_flags(ctx)
 
 
 # ---------------------------------------------------------------------------------------------- a
